@@ -3,6 +3,7 @@ import PqModel.AsyncFair
 import PqModel.PoolProto
 import PqModel.Registry
 import PqModel.CasPublish
+import PqModel.LazyInit
 import PqModel.Commit
 import PqModel.RowGroupProto
 
@@ -432,6 +433,121 @@ example : ∃ s, Reach 3 none s ∧ s.readers = [.done (some 2), .done (some 2),
   exact ⟨_, s8, rfl, rfl⟩
 
 end cas
+
+/-! ## once-guarded lazy loads (gzip bloom filter bits, schema state) -/
+section once
+open PqModel.OnceLoad
+
+/-- The lazily loaded gzip bloom filter as it is (`sync.Once`: a late caller returns from `Do` only
+    after the first caller's run has completed), any number `k` of concurrent `Check` calls on one
+    column chunk, every interleaving: every caller answers from the loaded content `v` — what a
+    serial execution answers —, the loader body runs at most once, no caller reads the captured
+    variables while the loader is still writing them, and while some caller has not returned some
+    step is enabled (callers that wait, wait for a loader that can finish). -/
+theorem once_load_serial (v k : Nat) {s : St} (hr : Reach true v k s) :
+    (∀ (i : Nat) r, s.cs[i]? = some (.done r) → r = some v) ∧
+    s.loads ≤ 1 ∧
+    ¬ Conflict s ∧
+    (∀ (i : Nat) pc, s.cs[i]? = some pc → (∀ r, pc ≠ .done r) → ∃ s', Step true v s s') ∧
+    s.cs.length = k := by
+  have hl : s.cs.length = k := by
+    induction hr with
+    | init => simp [OnceLoad.init]
+    | step _ hs ih => rw [cs_length hs]; exact ih
+  have hi := oinv_reach hr
+  refine ⟨hi.res, ?_, oinv_no_conflict hi, fun i pc h hn => progress hi h hn, hl⟩
+  rcases hg : s.guard with _ | _ | _
+  · have := (hi.idle hg).1; omega
+  · have := (hi.run hg).1; omega
+  · have := (hi.fin hg).1; omega
+
+/-- non-vacuity: three callers; caller 1 loads, caller 0 arrives during the load and has no step of
+    its own until the load is over, caller 2 arrives afterwards: all three answer from content 42 -/
+example : ∃ s, Reach true 42 3 s ∧ s.cs = [.done (some 42), .done (some 42), .done (some 42)] ∧ s.loads = 1 := by
+  have s0 : Reach true 42 3 (OnceLoad.init 3) := .init
+  have s1 := s0.step (.first (i := 1) rfl rfl)
+  have s2 := s1.step (.finish (i := 1) rfl)
+  have s3 := s2.step (.late (i := 0) rfl rfl)
+  have s4 := s3.step (.probe (i := 0) rfl)
+  have s5 := s4.step (.probe (i := 1) rfl)
+  have s6 := s5.step (.late (i := 2) rfl rfl)
+  have s7 := s6.step (.probe (i := 2) rfl)
+  exact ⟨_, s7, rfl, rfl⟩
+
+/-- NEGATION for a guard that does not make late callers wait (a flag set by compare-and-swap in
+    front of the loader instead of `sync.Once`): caller 0 takes the flag and is inside the loader,
+    caller 1 falls through and probes the variables — a read concurrent with the loader's write — and
+    answers from their zero values (`none`: a nil filter, i.e. io.EOF or a stale block), which no
+    serial execution does. The loader still runs once: counting loads does not reveal the slip. -/
+theorem once_flag_slip_not_serial :
+    (∃ s, Reach false 42 2 s ∧ Conflict s) ∧
+    (∃ s, Reach false 42 2 s ∧ s.cs[1]? = some (.done none) ∧ s.loads = 1) := by
+  have s0 : Reach false 42 2 (OnceLoad.init 2) := .init
+  have s1 := s0.step (.first (i := 0) rfl rfl)
+  have s2 := s1.step (.lateNoWait (i := 1) rfl rfl rfl)
+  have s3 := s2.step (.probe (i := 1) rfl)
+  exact ⟨⟨_, s2, 0, 1, by decide, rfl, rfl⟩, ⟨_, s3, rfl, rfl⟩⟩
+
+end once
+
+/-! ## copy-on-write caches (struct field cache, schema write-function cache) -/
+section cow
+open PqModel.CowCache
+
+/-- The copy-on-write caches as they are (the new outer map is stored after the new table has been
+    filled), any number of goroutines, any keys (equal or not), tables of any size, every
+    interleaving: every goroutine finds all `size` fields of its type, whether it built the table
+    itself or found it in the cache; nobody reads a table that is still being filled; every table
+    reachable from the published map is complete. -/
+theorem cow_cache_complete (size : Nat) (keys : List Nat) {s : St} (hr : Reach false size keys s) :
+    (∀ (i : Nat) k r, s.gs[i]? = some ⟨k, .done r⟩ → r = size) ∧
+    ¬ Conflict size s ∧
+    (∀ kt ∈ s.pub, s.filled kt.2 = size) := by
+  have hi := cinv_reach hr
+  exact ⟨hi.res, cinv_no_conflict hi, hi.pubC⟩
+
+/-- non-vacuity: two goroutines with the same never-seen type (3 fields) both miss and both build a
+    table; a third arrives after the first Store and hits: all three find 3 fields -/
+example : ∃ s, Reach false 3 [7, 7, 7] s ∧
+    s.gs = [⟨7, .done 3⟩, ⟨7, .done 3⟩, ⟨7, .done 3⟩] ∧ s.pub.lookup 7 = some 1 := by
+  have s0 : Reach false 3 [7, 7, 7] (CowCache.init [7, 7, 7]) := .init
+  have s1 := s0.step (.loadMiss (i := 0) rfl rfl)
+  have s2 := s1.step (.loadMiss (i := 1) rfl rfl)
+  have s3 := s2.step (.alloc (i := 0) rfl)
+  have s4 := s3.step (.alloc (i := 1) rfl)
+  have s5 := s4.step (.fill (i := 0) rfl (by decide) (by decide))
+  have s6 := s5.step (.fill (i := 0) rfl (by decide) (by decide))
+  have s7 := s6.step (.fill (i := 0) rfl (by decide) (by decide))
+  have s8 := s7.step (.filled (i := 0) rfl (by decide))
+  have s9 := s8.step (.store (i := 0) rfl)
+  have s10 := s9.step (.loadHit (i := 2) (t := 0) rfl rfl)
+  have s11 := s10.step (.fill (i := 1) rfl (by decide) (by decide))
+  have s12 := s11.step (.fill (i := 1) rfl (by decide) (by decide))
+  have s13 := s12.step (.fill (i := 1) rfl (by decide) (by decide))
+  have s14 := s13.step (.filled (i := 1) rfl (by decide))
+  have s15 := s14.step (.store (i := 1) rfl)
+  have s16 := s15.step (.use (i := 0) rfl)
+  have s17 := s16.step (.use (i := 1) rfl)
+  have s18 := s17.step (.use (i := 2) rfl)
+  exact ⟨_, s18, rfl, rfl⟩
+
+/-- NEGATION for storing the new outer map before the table is filled: goroutine 0 misses, allocates,
+    stores and has inserted one of two fields when goroutine 1 (same type) hits the cache: it reads the
+    table while goroutine 0 writes it (`concurrent map read and map write`), and finds 1 field of 2 —
+    the other is written as null/zero. -/
+theorem cow_store_before_fill_incomplete :
+    (∃ s, Reach true 2 [7, 7] s ∧ Conflict 2 s) ∧
+    (∃ s, Reach true 2 [7, 7] s ∧ s.gs[1]? = some ⟨7, .done 1⟩) := by
+  have s0 : Reach true 2 [7, 7] (CowCache.init [7, 7]) := .init
+  have s1 := s0.step (.loadMiss (i := 0) rfl rfl)
+  have s2 := s1.step (.alloc (i := 0) rfl)
+  have s3 := s2.step (.storeEarly (i := 0) rfl rfl)
+  have s4 := s3.step (.fill (i := 0) rfl (by decide) (by decide))
+  have s5 := s4.step (.loadHit (i := 1) (t := 0) rfl rfl)
+  have s6 := s5.step (.use (i := 1) rfl)
+  exact ⟨⟨_, s5, 0, 1, 7, 7, _, 0, 1, true, by decide, rfl, by decide, rfl⟩, ⟨_, s6, rfl⟩⟩
+
+end cow
 
 /-! ## concurrently filled row groups -/
 section commit
